@@ -25,4 +25,13 @@ static void *vf_memmove(void *d, const void *s, unsigned long n){
   for (unsigned long i=0;i<VF_MAXB;++i) if (i<n) ((unsigned char*)d)[i]=tmp[i];
   return d;
 }
+/* wide-character libc helpers (no CBMC built-in): plain loop models */
+static size_t vf_wcslen(const wchar_t *s){ size_t n = 0; while (s[n] != 0) ++n; return n; }
+static wchar_t *vf_wmemcpy(wchar_t *d, const wchar_t *s, size_t n){ for (size_t i = 0; i < n; ++i) d[i] = s[i]; return d; }
+static wchar_t *vf_wmemmove(wchar_t *d, const wchar_t *s, size_t n){ if (d < s) { for (size_t i = 0; i < n; ++i) d[i] = s[i]; } else { for (size_t i = n; i > 0; --i) d[i - 1] = s[i - 1]; } return d; }
+static wchar_t *vf_wmemset(wchar_t *d, wchar_t c, size_t n){ for (size_t i = 0; i < n; ++i) d[i] = c; return d; }
+#define wcslen vf_wcslen
+#define wmemcpy vf_wmemcpy
+#define wmemmove vf_wmemmove
+#define wmemset vf_wmemset
 #endif
